@@ -3,6 +3,7 @@ package harness
 import (
 	"fmt"
 	"os"
+	"path/filepath"
 	"strings"
 	"time"
 
@@ -34,12 +35,17 @@ type c02Params struct {
 	// Refused: the glob also matches entries that are not read: a sub-directory, a dangling symbolic link and
 	// (with DenyRule) a file the user's permission rules exclude
 	Refused bool
+	// Unclean: the glob is spelled non-canonically (1: "//", 2: "/./", 3: "x/../")
+	Unclean int
 }
 
 func (p c02Params) String() string {
 	s := fmt.Sprintf("%s files=%v glob=%v catlimit=%d stall=%v@%d max=%d after=%d readdelay=%dms", p.Kind, p.Files, p.Glob, p.CatLimit, p.Stall, p.StallAt, p.Max, p.After, p.ReadDelayMs)
 	if p.Refused {
 		s += " +dir,dangling-link,denied-file matched by the glob"
+	}
+	if p.Unclean > 0 {
+		s += fmt.Sprintf(" unclean-glob-spelling=%d", p.Unclean)
 	}
 	return s
 }
@@ -78,6 +84,14 @@ func c02Body(p c02Params, paths []string, dir string) (string, string) {
 	args.LogLevel = "error"
 	if p.Glob {
 		args.What = dir + "/f*.log"
+		switch p.Unclean {
+		case 1:
+			args.What = dir + "//f*.log"
+		case 2:
+			args.What = filepath.Dir(dir) + "/./" + filepath.Base(dir) + "/f*.log"
+		case 3:
+			args.What = dir + "/../" + filepath.Base(dir) + "/f*.log"
+		}
 	} else {
 		args.What = strings.Join(paths, ",")
 	}
@@ -318,6 +332,9 @@ func c02ParamSets(tier string) (ps []c02Params, d int) {
 			{Kind: "cat", Files: []int{3000}, CatLimit: 2, Stall: 4 * time.Second, StallAt: 150, D: -1},
 			{Kind: "grep", Files: []int{1500, 700}, Glob: true, CatLimit: 1, Max: 1200, After: 2, Stall: 2 * time.Second, StallAt: 50, D: -1},
 			{Kind: "cat", Files: []int{1, 1, 1}, Glob: true, CatLimit: 1, D: 1},
+			{Kind: "cat", Files: []int{2, 1}, Glob: true, CatLimit: 2, Unclean: 1, D: 1},
+			{Kind: "grep", Files: []int{2}, Glob: true, CatLimit: 2, Unclean: 2, D: 1},
+			{Kind: "cat", Files: []int{1, 2}, Glob: true, CatLimit: 1, Unclean: 3, D: 1},
 			{Kind: "cat", Files: []int{1, 0, 1, 1, 2}, Glob: true, CatLimit: 2, D: 1},
 			{Kind: "cat", Files: []int{1, 2}, Glob: true, CatLimit: 1, Refused: true, D: 1},
 			{Kind: "grep", Files: []int{2}, Glob: true, CatLimit: 2, Max: 1, Refused: true, D: 1},
@@ -353,7 +370,7 @@ func init() {
 		ID:    "C02",
 		Level: "model_checking",
 		Rule: "stateless exploration of all schedules within a deviation bound (quick 1, thorough 2; deviations = preemption, non-first ready select case, demotion of a goroutine) of one complete dcat/dgrep session: " +
-			"the real client main body, serverless connector, server handler, read commands, readers and client handler; sessions of 1-3 files (and one of 5 files: more than twice the limit queue) with 0-2 lines (plus 100/101 lines around the queue capacity and, on the canonical schedule, files of 700-3000 lines with a stalling consumer), one command per file or one glob, " +
+			"the real client main body, serverless connector, server handler, read commands, readers and client handler; sessions of 1-3 files (and one of 5 files: more than twice the limit queue) with 0-2 lines (plus 100/101 lines around the queue capacity and, on the canonical schedule, files of 700-3000 lines with a stalling consumer), one command per file or one glob (also spelled with '//', '/./', 'x/../'), " +
 			"cat limit 1-2, grep with max/after, globs that also match a directory, a dangling link and a file the permission rules deny, consumer eager or stalled 50 ms..6 s before the k-th write; oracle: per file exactly its selected lines once and in order, exit status 0, termination before the horizon; " +
 			"plus a 4-file session whose command stream is delivered in segments of 1..32768 bytes through a re-used transport buffer (as an SSH channel does); distinct = distinct (scenario, stdout+status) outcomes",
 		Assumptions: []string{
